@@ -9,6 +9,8 @@ import json,os,subprocess,sys,shutil,time
 V=os.environ.get("VERIF_DIR","/verif"); scratch_root=os.environ.get("VERIF_SCRATCH","/var/tmp")
 muts=json.load(open(V+"/selftest/mutants.json"))
 want=set(sys.argv[1:])
+last=int(os.environ.get("SELFTEST_LAST","0"))  # only the last N mutants of the list, no seeded changes
+if last: muts=muts[-last:]
 wt=os.path.join(scratch_root,"govc-selftest-%d"%os.getpid())
 def sh(*a,**k): return subprocess.run(a,capture_output=True,text=True,**k)
 sh("git","-C","/repo","worktree","add","--detach","-q",wt,"HEAD")
@@ -32,7 +34,7 @@ try:
         open(path,"w").write(src)
         ok=(len(viol)>0)==(m["expect"]=="fail")
         results.append((pid,m["name"],("ok" if ok else "WRONG")+" expect=%s violations=%d %.0fs %s"%(m["expect"],len(viol),dt,(viol[0].split("obligation=")[-1] if viol else ""))))
-    for name in sorted(os.listdir(V+"/seeded")) if os.path.isdir(V+"/seeded") else []:
+    for name in sorted(os.listdir(V+"/seeded")) if os.path.isdir(V+"/seeded") and not last else []:
         meta=json.load(open(V+"/seeded/%s/meta.json"%name)); pid=meta["property"]
         if want and pid not in want: continue
         pf=V+"/seeded/%s/patch_rebased.diff"%name
